@@ -58,7 +58,7 @@ def run(ctx):
             continue
         ndarray.account(ctx, st, s)
         ndarray.report_fails(ctx, s, "C01")
-    ndarray.big_arrays(ctx, ("footprint",))
+    ndarray.big_arrays(ctx, ("footprint", "value"))
     run_traces(ctx, C01_EVENTS, "C01", 150 if ctx.quick else 2500, 40)
     ctx.notes["exhaustive_note"] = "within the bounds of each BFS configuration (see configs); simulation and traces are samples"
     ctx.assumptions += ["test values are small non-negative integers (exact in all 8 element types)",
